@@ -537,7 +537,10 @@ public:
 			std::move(NodeTypeProxy::GetExtractedPair(node))));
 #else
 		(void)hint;
-		return insert(std::move(node)).position;
+		if (node.empty())
+			return end();
+		return IteratorProxy(mHashMap.Insert(
+			std::move(NodeTypeProxy::GetExtractedPair(node))).position);
 #endif
 	}
 
